@@ -663,6 +663,18 @@ class Executor:
         if rhs.startswith("no_retag "):
             rhs = rhs[len("no_retag "):]
         lty = self.place_type(st, lhs)
+        um = re.match(r"(?:copy|move) (_\d+) as &(?:mut )?\[\w+\] \(PointerCoercion\(Unsize", rhs)
+        if um:
+            # &[T; N] -> &[T]: a slice of N elements (N from the declared type of the source)
+            am = re.match(r"&(?:mut )?\[\w+; (\d+)\]$", (self.cur_fn.decls.get(um.group(1)) or "").strip())
+            if am:
+                name = f"@unsized{self.ctx.n}"
+                self.ctx.n += 1
+                sl = Agg("slice")
+                sl["#len"] = z3.BitVecVal(int(am.group(1)), 64)
+                st.locals[name] = sl
+                self.write_place(st, lhs, Ref((name,), False))
+                return
         pm0 = re.match(r"PtrMetadata\((?:move|copy) (.*)\)$", rhs)
         if pm0:
             v = self.read_place(st, pm0.group(1))
